@@ -103,7 +103,7 @@ int cp_bls_ver(const g1_t s, const uint8_t *msg, size_t len, const g2_t q) {
 		g2_neg(r[1], r[1]);
 
 		pc_map_sim(e, p, r, 2);
-		if (gt_is_unity(e) && g2_is_valid(q)) {
+		if (gt_is_unity(e) && g2_is_valid(q) && g1_is_valid(s)) {
 			result = 1;
 		}
 	}
